@@ -187,8 +187,13 @@ const (
 	fkCall
 	fkApply
 	fkBound
-	fkIIFE   // the function is an immediately invoked function expression
-	fkGetter // the function is a getter, "called" by a property read
+	fkIIFE         // the function is an immediately invoked function expression
+	fkGetter       // the function is a getter, "called" by a property read
+	fkCtorDot      // new ns.C()
+	fkCtorBracket  // new ns['C']()
+	fkDeepMethod   // ns.sub.C()
+	fkEvalDirect   // eval("\n  f()"): the caller's frame points into the eval text
+	fkEvalIndirect // ge("\n  f()") with var ge = eval: global code of the eval text plus the native eval frame
 )
 
 // traceCase builds a chain top -> f1 -> ... -> fn -> raise with known positions.
@@ -218,13 +223,23 @@ func traceCase(r *gen.Rand) Input {
 		kinds[i] = frameKind(r.Intn(9))
 		if r.Chance(1, 25) {
 			kinds[i] = []frameKind{fkIIFE, fkGetter}[r.Intn(2)]
+		} else if r.Chance(1, 4) {
+			kinds[i] = []frameKind{fkCtorDot, fkCtorBracket, fkDeepMethod, fkEvalDirect, fkEvalIndirect}[r.Intn(5)]
+			if (kinds[i] == fkEvalDirect || kinds[i] == fkEvalIndirect) && (i == 0 || file == "") {
+				// positions in eval text are reported against the file "<anonymous>": keep them
+				// apart from the program's own frames, and out of global code
+				kinds[i] = fkCtorDot
+			}
 		}
 		names[i] = fmt.Sprintf("f%d", i+1)
 	}
 	// frames[i] = the line describing function i+1 (innermost last)
-	type site struct{ line, col int }
-	callSites := make([]site, n+1) // callSites[i] = where function i calls function i+1 (0 = top level)
-	natives := make([]string, n+1) // native mediator between i and i+1
+	type site struct {
+		line, col int
+		file      string // "" = the program's file
+	}
+	callSites := make([]site, n+1)   // callSites[i] = where function i calls function i+1 (0 = top level)
+	natives := make([][]string, n+1) // frames between i and i+1 (native mediators, eval code)
 	// raising construct
 	raiseKinds := []struct{ pre, text, class string }{
 		{"", "nope_%d", "ReferenceError"},
@@ -268,10 +283,21 @@ func traceCase(r *gen.Rand) Input {
 			return p + "(0, " + nm + ")()", len(p)
 		case fkGetter:
 			return p + "o" + nm + ".g", len(p)
+		case fkCtorDot:
+			return p + "new ns" + nm + ".C(" + a + ")", len(p) + 4
+		case fkCtorBracket:
+			return p + "new ns" + nm + "['C'](" + a + ")", len(p) + 4
+		case fkDeepMethod:
+			return p + "ns" + nm + ".sub.C(" + a + ")", len(p)
+		case fkEvalDirect:
+			return p + "eval(\"\\n  " + nm + "(" + a + ")\")", len(p)
+		case fkEvalIndirect:
+			return p + "ge(\"\\n  " + nm + "(" + a + ")\")", len(p)
 		}
 		return p + nm + "(" + a + ")", len(p)
 	}
 	addLine("function idf(x) { return x }")
+	addLine("var ge = eval;")
 	for i := n - 1; i >= 0; i-- {
 		nm := names[i]
 		var bodyLines []string
@@ -286,7 +312,7 @@ func traceCase(r *gen.Rand) Input {
 		}
 		var head string
 		switch kinds[i] {
-		case fkDecl, fkCtor, fkForEach, fkCall, fkApply, fkBound:
+		case fkDecl, fkCtor, fkForEach, fkCall, fkApply, fkBound, fkCtorDot, fkCtorBracket, fkDeepMethod, fkEvalDirect, fkEvalIndirect:
 			head = "function " + nm + "() {"
 			labels[i] = nm
 		case fkAnon:
@@ -310,12 +336,16 @@ func traceCase(r *gen.Rand) Input {
 			ln := addLine(bl)
 			if i == n-1 {
 				col := len(bl) - len(strings.TrimLeft(bl, " ")) + len(rk.pre) + 1
-				raiseSite = site{ln, col}
+				raiseSite = site{line: ln, col: col}
 			} else {
 				// recompute callee offset
 				p := bl[:len(bl)-len(strings.TrimLeft(bl, " "))]
 				_, off := invoke(i+1, p+"return ")
-				callSites[i+1] = site{ln, off + 1}
+				callSites[i+1] = site{line: ln, col: off + 1}
+				if kinds[i+1] == fkEvalDirect {
+					// a direct eval adds no frame; the caller's frame shows the position in the eval text
+					callSites[i+1] = site{line: 2, col: 3, file: "<anonymous>"}
+				}
 			}
 		}
 		switch kinds[i] {
@@ -326,9 +356,13 @@ func traceCase(r *gen.Rand) Input {
 		default:
 			addLine("}")
 		}
+		switch kinds[i] {
+		case fkCtorDot, fkCtorBracket, fkDeepMethod:
+			addLine("var ns" + nm + " = { C: " + nm + ", sub: { C: " + nm + " } };")
+		}
 		if kinds[i] == fkBound {
 			ln := addLine("var b" + nm + " = " + nm + ".bind(null);")
-			lastTopCall = site{ln, len("var b"+nm+" = ") + 1}
+			lastTopCall = site{line: ln, col: len("var b"+nm+" = ") + 1}
 		}
 		for k := r.Intn(2); k > 0; k-- {
 			addLine("")
@@ -337,21 +371,27 @@ func traceCase(r *gen.Rand) Input {
 	p := pad()
 	txt, off := invoke(0, p)
 	ln := addLine(txt + ";")
-	callSites[0] = site{ln, off + 1}
+	callSites[0] = site{line: ln, col: off + 1}
 	for i := 0; i < n; i++ {
 		switch kinds[i] {
 		case fkForEach:
-			natives[i] = "forEach"
+			natives[i] = []string{"at forEach (<native code>)"}
 		case fkCall:
-			natives[i] = "call"
+			natives[i] = []string{"at call (<native code>)"}
 		case fkApply:
-			natives[i] = "apply"
+			natives[i] = []string{"at apply (<native code>)"}
+		case fkEvalIndirect:
+			natives[i] = []string{"at <anonymous>:2:3", "at eval (<native code>)"}
 		}
 	}
 	// expected frames, innermost first
 	var want []string
 	fr := func(label string, s site) string {
-		loc := fmt.Sprintf("%s:%d:%d", shown, s.line, s.col)
+		f := shown
+		if s.file != "" {
+			f = s.file
+		}
+		loc := fmt.Sprintf("%s:%d:%d", f, s.line, s.col)
 		if label == "" {
 			return "at " + loc
 		}
@@ -361,10 +401,8 @@ func traceCase(r *gen.Rand) Input {
 	dev := append([]string{}, want...)
 	deviates := false
 	for i := n - 1; i >= 0; i-- {
-		if natives[i] != "" {
-			want = append(want, "at "+natives[i]+" (<native code>)")
-			dev = append(dev, "at "+natives[i]+" (<native code>)")
-		}
+		want = append(want, natives[i]...)
+		dev = append(dev, natives[i]...)
 		label := ""
 		if i > 0 {
 			label = labels[i-1]
